@@ -313,6 +313,12 @@ func (r *rateLimiter[R]) acquirePermitsWithMaxWait(ctx context.Context, exec fai
 		case <-timer.C:
 		case <-exec.Canceled():
 			timer.Stop()
+			// Report why the wait was canceled, rather than the error of some earlier attempt
+			if execInternal, ok := exec.(policy.ExecutionInternal[R]); ok {
+				if canceled, cancelResult := execInternal.IsCanceledWithResult(); canceled {
+					return cancelResult.Error
+				}
+			}
 			return exec.LastError()
 		}
 	}
